@@ -63,7 +63,12 @@ func (queryPacket queryPacket) zeroize() {
 
 // PgProtocolState keeps track of PostgreSQL protocol state.
 type PgProtocolState struct {
-	lastPacketType PacketType
+	// Packets of the two directions are handled by two goroutines (ProxyClientConnection and ProxyDatabaseConnection)
+	// that run at the same time when the application pipelines messages of the extended protocol. Each direction keeps
+	// the type of its own last packet: with one shared field a goroutine could read what the other one had just written
+	// (a data row taken for an uninteresting packet and forwarded unprocessed, an Execute not registered as pending).
+	lastClientPacketType   PacketType
+	lastDatabasePacketType PacketType
 	// collect queries from the application that waiting DataRows from the database to correctly map settings of
 	// transparent encryption and type awareness to the result rows
 	pendingQueryPackets *pendingPacketsList
@@ -90,12 +95,19 @@ const (
 
 // NewPgProtocolState makes an initial PostgreSQL state, awaiting for queries.
 func NewPgProtocolState(registry *PgPreparedStatementRegistry) *PgProtocolState {
-	return &PgProtocolState{lastPacketType: OtherPacket, pendingQueryPackets: newPendingPacketsList(), registry: registry}
+	return &PgProtocolState{lastClientPacketType: OtherPacket, lastDatabasePacketType: OtherPacket, pendingQueryPackets: newPendingPacketsList(), registry: registry}
 }
 
-// LastPacketType returns type of the last seen packet.
-func (p *PgProtocolState) LastPacketType() PacketType {
-	return p.lastPacketType
+// LastClientPacketType returns type of the last packet seen from the client.
+// It must be called only from the goroutine that handles client packets.
+func (p *PgProtocolState) LastClientPacketType() PacketType {
+	return p.lastClientPacketType
+}
+
+// LastDatabasePacketType returns type of the last packet seen from the database.
+// It must be called only from the goroutine that handles database packets.
+func (p *PgProtocolState) LastDatabasePacketType() PacketType {
+	return p.lastDatabasePacketType
 }
 
 // HandleClientPacket observes a packet from client to the database,
@@ -103,30 +115,30 @@ func (p *PgProtocolState) LastPacketType() PacketType {
 func (p *PgProtocolState) HandleClientPacket(packet *PacketHandler) error {
 	// Query packets are easy, that's a simple query protocol.
 	if packet.IsSimpleQuery() {
-		p.lastPacketType = SimpleQueryPacket
+		p.lastClientPacketType = SimpleQueryPacket
 		return nil
 	}
 
 	// Parse packets initiate extended query protocol.
 	if packet.IsParse() {
-		p.lastPacketType = ParseStatementPacket
+		p.lastClientPacketType = ParseStatementPacket
 		return nil
 	}
 
 	// Bind packets carry bound parameters for extended queries.
 	if packet.IsBind() {
-		p.lastPacketType = BindStatementPacket
+		p.lastClientPacketType = BindStatementPacket
 		return nil
 	}
 
 	// Execute packets initiate data retrieval from portals.
 	if packet.IsExecute() {
-		p.lastPacketType = ExecutePacketType
+		p.lastClientPacketType = ExecutePacketType
 		return nil
 	}
 
 	// We are not interested in other packets, just pass them through.
-	p.lastPacketType = OtherPacket
+	p.lastClientPacketType = OtherPacket
 	return nil
 }
 
@@ -135,32 +147,32 @@ func (p *PgProtocolState) HandleClientPacket(packet *PacketHandler) error {
 func (p *PgProtocolState) HandleDatabasePacket(packet *PacketHandler) error {
 	// This is data response to the previously issued query.
 	if packet.IsDataRow() {
-		p.lastPacketType = DataPacket
+		p.lastDatabasePacketType = DataPacket
 		return nil
 	}
 
 	if packet.IsRowDescription() {
-		p.lastPacketType = RowDescriptionPacket
+		p.lastDatabasePacketType = RowDescriptionPacket
 		return nil
 	}
 
 	if packet.IsParameterDescription() {
-		p.lastPacketType = ParameterDescriptionPacket
+		p.lastDatabasePacketType = ParameterDescriptionPacket
 		return nil
 	}
 
 	if packet.IsParseComplete() {
-		p.lastPacketType = ParseCompletePacket
+		p.lastDatabasePacketType = ParseCompletePacket
 		return nil
 	}
 
 	if packet.IsBindComplete() {
-		p.lastPacketType = BindCompletePacket
+		p.lastDatabasePacketType = BindCompletePacket
 		return nil
 	}
 
 	if packet.IsCommandComplete() || packet.IsEmptyQueryResponse() || packet.IsPortalSuspended() || packet.IsErrorResponse() {
-		p.lastPacketType = OtherPacket
+		p.lastDatabasePacketType = OtherPacket
 		pendingQueryPacket, err := p.pendingQueryPackets.GetPendingPacket(queryPacket{})
 		if err != nil {
 			log.WithError(err).Errorln("No pending qury packet")
@@ -183,11 +195,11 @@ func (p *PgProtocolState) HandleDatabasePacket(packet *PacketHandler) error {
 	// ReadyForQuery starts a new query processing. Forget pending queries.
 	// There is nothing interesting in the packet otherwise.
 	if packet.IsReadyForQuery() {
-		p.lastPacketType = ReadyForQueryPacket
+		p.lastDatabasePacketType = ReadyForQueryPacket
 		return nil
 	}
 
 	// We are not interested in other packets, just pass them through.
-	p.lastPacketType = OtherPacket
+	p.lastDatabasePacketType = OtherPacket
 	return nil
 }
